@@ -222,7 +222,24 @@ def r20_5(ctx):
     # STAT/LIST sizes through _get_msg_size -> get_msg_size
     gs = p.func("pop3_client.POP3CommandHandler._get_msg_size")
     pgs = pm_of(p, gs)
-    if pgs.has("msg = self.mbox.get_msg_by_uid(...)\nself.msg_sizes[pop3_num] = get_msg_size(msg)") and pgs.has("return self.msg_sizes[pop3_num]"):
+    # what is cached under the message number is get_msg_size(<the message of that number>) - or 0 when it has vanished
+    def _size_src(e):
+        if isinstance(e, ast.Call) and call_name(e) == "get_msg_size":
+            a0 = e.args[0] if e.args else None
+            if isinstance(a0, ast.Name):
+                ds = [s_.value for s_ in body_walk(gs.node) if isinstance(s_, ast.Assign) and norm(s_.targets[0]) == a0.id]
+                a0 = ds[0] if len(ds) == 1 else None
+            return "size" if isinstance(a0, ast.Call) and call_name(a0) == "get_msg_by_uid" and "self.snapshot_uids[pop3_num - 1]" in norm(a0) else None
+        if isinstance(e, ast.Constant) and e.value == 0:
+            return "zero"
+        if isinstance(e, ast.Name):
+            ds = [_size_src(s_.value) for s_ in body_walk(gs.node) if isinstance(s_, ast.Assign) and norm(s_.targets[0]) == e.id]
+            return "size" if ds and all(ds) and "size" in ds else None
+        return None
+
+    stores = [s_ for s_ in body_walk(gs.node) if isinstance(s_, ast.Assign) and norm(s_.targets[0]) == "self.msg_sizes[pop3_num]"]
+    srcs = [_size_src(s_.value) for s_ in stores]
+    if stores and all(srcs) and "size" in srcs and pgs.has("return self.msg_sizes[pop3_num]"):
         ctx.ok("R20.5", where(gs), "STAT/LIST sizes = get_msg_size(msg) (same renderer as RETR)")
     else:
         ctx.bad("R20.5", gs.module, gs.qual, "get_msg_size(msg)", "STAT/LIST sizes no longer come from the shared renderer", gs.node.lineno)
@@ -326,15 +343,31 @@ def r20_8(ctx):
         return
     for m in readers:
         ctx.analysed(m)
-        okv = False
-        from .common import pm_of as _pm
-        exact = _pm(p, m).has("if idx >= len(self.uids) or self.uids[idx] != uid:\n    ...")
-        for iff in [x for x in body_walk(m.node) if isinstance(x, ast.If)] if exact else []:
-            for a_, pos_ in polarity_atoms(iff.test):
-                if isinstance(a_, ast.Compare) and "self.uids[" in norm(a_) and len(a_.ops) == 1:
-                    mismatch_arm = (isinstance(a_.ops[0], ast.NotEq) and pos_) or (isinstance(a_.ops[0], ast.Eq) and not pos_)
-                    if mismatch_arm and any(isinstance(s_, (ast.Assign, ast.Try, ast.Raise)) for s_ in iff.body):
-                        okv = True
+        # every path from the index look-up to a use of the position passes either the validation
+        # (`idx < len(self.uids)` and `self.uids[idx] == uid` both true) or a fresh look-up (`self.uids.index(uid)`)
+        gm = ctx.cfg(m)
+        look = [n.id for n in gm.nodes if n.ast is not None and n.kind == "stmt" and isinstance(n.ast, ast.Assign) and isinstance(n.ast.targets[0], ast.Name) and any(isinstance(x, (ast.Subscript, ast.Call)) and "self._uid_to_idx" in norm(x) for x in ast.walk(n.ast.value))]
+        okv = bool(look)
+        for l_ in look:
+            iv = gm.nodes[l_].ast.targets[0].id
+            uses = {n.id for n in gm.nodes if n.ast is not None and n.kind in ("stmt", "return") and any(isinstance(x, ast.Subscript) and norm(x.value) in ("self.msg_keys", "self.uids") and norm(x.slice) == iv for x in ast.walk(n.ast))}
+            fresh = {n.id for n in gm.nodes if n.ast is not None and n.kind == "stmt" and isinstance(n.ast, ast.Assign) and norm(n.ast.targets[0]) == iv and any(call_name(c) == "index" and norm(call_recv(c)) == "self.uids" for c in calls_in(n.ast))}
+
+            def _cls(e, iv=iv):
+                if isinstance(e, ast.Compare) and len(e.ops) == 1:
+                    t = norm(e)
+                    if isinstance(e.ops[0], ast.Eq) and f"self.uids[{iv}]" in (norm(e.left), norm(e.comparators[0])):
+                        return "hit"
+                    if isinstance(e.ops[0], ast.Lt) and norm(e.left) == iv and norm(e.comparators[0]) == "len(self.uids)":
+                        return "inrange"
+                    if isinstance(e.ops[0], ast.Gt) and norm(e.comparators[0]) == iv and norm(e.left) == "len(self.uids)":
+                        return "inrange"
+                return None
+
+            bad_path = flow.feasible_paths_exist(gm, l_, uses, _cls, labels=flow.NORMAL, avoid=lambda x: x in fresh, accept=lambda n_, f: not (f.get("hit") is True and f.get("inrange") is True)) if uses else None
+            ctx.paths_explored += 1
+            if bad_path or not uses:
+                okv = False
         if okv:
             ctx.ok("R20.8", where(m), "index hit validated against uids before it is used (expunge has a stale-index window)")
         else:
